@@ -135,8 +135,9 @@ func (l *lexer) backup() {
 
 func (l *lexer) errorf(format string, args ...interface{}) stateFn {
 	l.items <- item{
-		typ: itemError,
-		val: fmt.Sprintf(format, args...),
+		typ:  itemError,
+		val:  fmt.Sprintf(format, args...),
+		line: l.line,
 	}
 	return nil
 }
